@@ -1015,6 +1015,7 @@ func runC18(c *core.Ctx) {
 	c18Sequential(c)
 	c18FreshSection(c, c.N(2400, 60000))
 	coldSection(c, c.N(100, 2000), nil)
+	burstSection(c, c.N(480, 48000))
 	// the same concurrent workload without the race detector: results only, more volume
 	reps := c.N(1, 12)
 	c.Section("concurrent-plain", uint64(len(c18Configs))*reps, func(cs *core.Case) {
@@ -1027,6 +1028,7 @@ func runC18(c *core.Ctx) {
 
 func runC18Race(c *core.Ctx) {
 	coldSection(c, c.N(100, 2000), nil)
+	burstSection(c, c.N(240, 9600))
 	reps := c.N(1, 3)
 	c.Section("concurrent-race", uint64(len(c18Configs))*reps, func(cs *core.Case) {
 		c.WatchdogOff(true)
